@@ -1144,7 +1144,8 @@ def history(llb, d, seed, jobs, db, keep_going, with_ninja, want_clean):
             rc2, ran2, txt2, nran2 = build_all("again, not repaired")
             if rc2 == 0 or not (failing & set(ran2)):
                 tried = [c for c in w.cmds if c.name in failing and c.name in ran]
-                if op.get("late") and tried and all(c.kind == "generator" for c in tried):
+                if op.get("late") and any(c.kind == "generator" and c.name not in ran2 for c in tried):
+                    # (the partial output of the generator command then reaches its dependents, so nothing more can be judged in this step)
                     # known: a generator command that failed after writing its output takes the timestamp shortcut
                     if not any(k == "generator-failed-not-retried" for (k, _, _) in known):
                         known.append(("generator-failed-not-retried", "generator command(s) %s failed after writing their outputs and were not retried by the next build (ran %s, exit status %d)" % (
